@@ -127,7 +127,46 @@ def extended_intrinsic_op_unanchored(src, ctx):
     return ctx.get("kind") == "add-paren" and any(_XOP.search(strip_comment(l)) for l in src.split("\n"))
 
 
+def one_spec_equals_inside_positional(src, ctx):
+    """fparser1: `specs_split_comma` takes the first `=` anywhere in a positional specification
+    (inside a character literal such as a format string, in `==`, inside parentheses) for
+    `keyword =`: the text in front of it is upper-cased and blanks are put round the `=`
+    (`write (*, '("x=", i3)') n` -> `'("X = ", i3)'`).  src = the source statement."""
+    printed = ctx.get("printed")
+    if not printed:
+        return False
+    m = re.match(r"(?i)^\s*(?:\d+\s+)?(?:if\s*\(.*\)\s*)?(write|read|open|close|inquire|allocate|deallocate|flush|wait|rewind|backspace|endfile)\s*\(", src)
+    if not m:
+        return False
+    # a positional spec (no leading `name =`) that contains `=`
+    body = src[m.end():]
+    depth, cur, specs = 0, "", []
+    q = None
+    for ch in body:
+        if q:
+            cur += ch
+            if ch == q:
+                q = None
+            continue
+        if ch in "'\"":
+            q = ch
+        if ch == "(":
+            depth += 1
+        if ch == ")":
+            if depth == 0:
+                specs.append(cur)
+                break
+            depth -= 1
+        if ch == "," and depth == 0:
+            specs.append(cur)
+            cur = ""
+            continue
+        cur += ch
+    return any("=" in sp and not re.match(r"\s*\w+\s*=(?!=)", sp) for sp in specs)
+
+
 PREDICATES = {
+    "C19": [one_spec_equals_inside_positional],
     "C08": [extended_intrinsic_op_unanchored],
     "C01": [shared_label_do_inline_comment],
     "C11": [shared_label_do_inline_comment],
